@@ -896,6 +896,205 @@ def _custom_opt(net):
     return True
 
 
+# rarely used operators (level `rareops`) -------------------------------------------------------
+def _sqdiff(net, other):
+    x = net.cur
+    t = net.T(x)
+    if t["dtype"] not in ("int8", "int16") or not t["shape"]:
+        return False
+    dt = t["dtype"]
+    if other == "res":
+        cands = [i for i in net.open if i != x and net.T(i)["shape"] == t["shape"] and net.T(i)["dtype"] == dt]
+        o = cands[-1] if cands else x
+    else:
+        shp = t["shape"] if other == "const" else [1] * (len(t["shape"]) - 1) + [t["shape"][-1]]
+        s, z = net.qparams(dt)
+        o = net.const(shp, dt, "data", scale=[s], zp=z)
+    y = net.act(t["shape"], dt, q=(net.scale(x) * 4.0, -128 if dt == "int8" else 0))
+    net.op("SQUARED_DIFFERENCE", [x, o], [y], ("SquaredDifferenceOptions", {}))
+    return True
+
+
+inst("sqdiff_const", "r")(lambda n: _sqdiff(n, "const"))
+inst("sqdiff_res", "r")(lambda n: _sqdiff(n, "res"))
+inst("sqdiff_bcast_c", "r")(lambda n: _sqdiff(n, "bc"))
+
+
+def _to_rank3(net):
+    """RESHAPE [1,h,w,c] -> [h,w,c]"""
+    x = net.cur
+    t = net.T(x)
+    if not _hw4(net) or t["shape"][0] != 1:
+        return False
+    new = t["shape"][1:]
+    shp = net.const([3], "int32", "data", values=new)
+    y = net.act(new, t["dtype"], q=(net.scale(x), net.zp(x)))
+    net.op("RESHAPE", [x, shp], [y], ("ReshapeOptions", dict(NewShape=new)))
+    return True
+
+
+def _pack(net, axis, rank3):
+    """PACK of the current tensor with a second operand (another open tensor of the same shape and quantisation, else a constant)"""
+    if rank3 and not _to_rank3(net):
+        return False
+    x = net.cur
+    t = net.T(x)
+    if t["dtype"] not in ("int8", "uint8", "int16") or len(t["shape"]) + 1 > 4 or axis > len(t["shape"]):
+        return False
+    cands = [i for i in net.open if i != x and net.T(i)["shape"] == t["shape"] and net.T(i)["dtype"] == t["dtype"] and net.T(i)["quant"] == t["quant"]]
+    o = cands[-1] if cands else net.const(t["shape"], t["dtype"], "data", scale=[net.scale(x)], zp=net.zp(x))
+    new = t["shape"][:axis] + [2] + t["shape"][axis:]
+    y = net.act(new, t["dtype"], q=(net.scale(x), net.zp(x)))
+    net.op("PACK", [x, o], [y], ("PackOptions", dict(ValuesCount=2, Axis=axis)))
+    return True
+
+
+inst("pack_a0", "r")(lambda n: _pack(n, 0, True))
+inst("pack_a1", "r")(lambda n: _pack(n, 1, True))
+inst("pack_a3", "r")(lambda n: _pack(n, 3, True))
+
+
+def _unpack(net, axis):
+    x = net.cur
+    t = net.T(x)
+    if not _hw4(net) or t["shape"][axis] > 8:
+        return False
+    num = t["shape"][axis]
+    new = [d for i, d in enumerate(t["shape"]) if i != axis]
+    ys = [net.act(new, t["dtype"], q=(net.scale(x), net.zp(x))) for _ in range(num)]
+    net.op("UNPACK", [x], ys, ("UnpackOptions", dict(Num=num, Axis=axis)))
+    net.cur = ys[-1]
+    return True
+
+
+inst("unpack_a0", "r")(lambda n: _unpack(n, 0))
+inst("unpack_a1", "r")(lambda n: _unpack(n, 1))
+inst("unpack_a3", "r")(lambda n: _unpack(n, 3))
+
+
+def _split_v(net, axis, minus1):
+    x = net.cur
+    t = net.T(x)
+    if not _hw4(net) or t["shape"][axis] < 3:
+        return False
+    d = t["shape"][axis]
+    sizes = [1, d - 3, 2] if d > 3 else [1, 2]
+    vals = list(sizes)
+    if minus1:
+        vals[1] = -1
+    sz = net.const([len(sizes)], "int32", "data", values=vals)
+    ax = net.const([], "int32", "data", values=axis)
+    ys = [net.act([s_ if i == axis else v for i, v in enumerate(t["shape"])], t["dtype"], q=(net.scale(x), net.zp(x))) for s_ in sizes]
+    net.op("SPLIT_V", [x, sz, ax], ys, ("SplitVOptions", dict(NumSplits=len(sizes))))
+    net.cur = ys[1]
+    return True
+
+
+inst("splitv_c", "r")(lambda n: _split_v(n, 3, False))
+inst("splitv_c_m1", "r")(lambda n: _split_v(n, 3, True))
+inst("splitv_h", "r")(lambda n: _split_v(n, 1, False))
+inst("splitv_w_m1", "r")(lambda n: _split_v(n, 2, True))
+
+
+@inst("shape", "r")
+def _shape(net):
+    """SHAPE of the current tensor as an additional network output; the chain continues from the current tensor"""
+    x = net.cur
+    t = net.T(x)
+    if t["dtype"] not in ("int8", "uint8", "int16") or not t["shape"]:
+        return False
+    y = net.act([len(t["shape"])], "int32", noquant=True)
+    net.op("SHAPE", [x], [y], ("ShapeOptions", dict(OutType=2)))
+    net.cur = x
+    return True
+
+
+@inst("expand_dims", "r")
+def _expand_dims(net):
+    x = net.cur
+    t = net.T(x)
+    if t["dtype"] not in ("int8", "uint8", "int16") or len(t["shape"]) != 4 or t["shape"][0] != 1:
+        return False
+    if not _to_rank3(net):
+        return False
+    x = net.cur
+    t = net.T(x)
+    ax = net.const([], "int32", "data", values=2)
+    new = t["shape"][:2] + [1] + t["shape"][2:]
+    y = net.act(new, t["dtype"], q=(net.scale(x), net.zp(x)))
+    net.op("EXPAND_DIMS", [x, ax], [y], ("ExpandDimsOptions", {}))
+    return True
+
+
+inst("log", "r")(lambda n: _unary(n, "LOG", None, dtypes=("int8", "int16")))
+inst("sqrt", "r")(lambda n: _unary(n, "SQRT", None, dtypes=("int8", "int16")))
+inst("gelu", "r")(lambda n: _unary(n, "GELU", ("GeluOptions", dict(Approximate=False)), dtypes=("int8", "int16")))
+inst("gelu_tanh", "r")(lambda n: _unary(n, "GELU", ("GeluOptions", dict(Approximate=True)), dtypes=("int8",)))
+inst("exp16", "r")(lambda n: _unary(n, "EXP", ("ExpOptions", {}), dtypes=("int16",)))
+
+
+def _prelu_shape(net, ashape):
+    x = net.cur
+    t = net.T(x)
+    if not _hw4(net) or t["dtype"] == "int16":
+        return False
+    shp = ashape(t["shape"])
+    a = net.const(shp, t["dtype"], "data", scale=[0.02], zp=0 if t["dtype"] == "int8" else 128)
+    y = net.act(t["shape"], t["dtype"])
+    net.op("PRELU", [x, a], [y], None)
+    return True
+
+
+inst("prelu_full", "r")(lambda n: _prelu_shape(n, lambda s: s[1:]))
+inst("prelu_c", "r")(lambda n: _prelu_shape(n, lambda s: [1, 1, s[3]]))
+
+
+def _lstm(net, time_major, n_cell=8, allow_batch=False):
+    """UNIDIRECTIONAL_SEQUENCE_LSTM (int8 activations, int16 cell state, no CIFG / peephole / projection / layer norm) on [batch, time, feature]"""
+    x = net.cur
+    t = net.T(x)
+    if not _hw4(net) or t["dtype"] != "int8" or t["shape"][0] != 1 or t["shape"][1] * t["shape"][2] > 16:
+        return False
+    n, h, w, c = t["shape"]
+    if not time_major and h != 1 and not allow_batch:
+        # batch-major with several batches reads the cell state of batch >= 1 outside its tensor (open finding, see known_findings.jsonl):
+        # instance `lstm` is restricted to one batch, `lstm_b` keeps the failing geometry for the thorough tier
+        return False
+    new = [h, w, c]  # h = batch (or time when time-major), w = time (or batch)
+    shp = net.const([3], "int32", "data", values=new)
+    x3 = net.act(new, "int8", q=(net.scale(x), net.zp(x)))
+    net.op("RESHAPE", [x, shp], [x3], ("ReshapeOptions", dict(NewShape=new)))
+    n_batch = w if time_major else h
+    ws = 0.01
+    ins = [x3]
+    ins += [net.const([n_cell, c], "int8", "weights", scale=[ws], zp=0) for _ in range(4)]        # input-to-{input,forget,cell,output}
+    ins += [net.const([n_cell, n_cell], "int8", "weights", scale=[ws], zp=0) for _ in range(4)]   # recurrent
+    ins += [-1, -1, -1]                                                                           # peephole
+    ins += [net.const([n_cell], "int32", "bias", scale=[ws * net.scale(x)], zp=0) for _ in range(4)]  # gate biases
+    ins += [-1, -1]                                                                               # projection
+    out_state = net.act([n_batch, n_cell], "int8", q=(1 / 128, 0))
+    cell_state = net.act([n_batch, n_cell], "int16", q=(2.0 ** -11, 0))
+    for s_ in (out_state, cell_state):
+        net.T(s_)["is_variable"] = True
+        net.open.remove(s_) if s_ in net.open else None
+    ins += [out_state, cell_state]
+    ins += [-1, -1, -1, -1]                                                                       # layer norm
+    inter = [net.act([n_batch, n_cell], "int16", q=(2.0 ** -12, 0)) for _ in range(4)] + [net.act([n_batch, n_cell], "int8", q=(2.0 ** -7, 0))]
+    for s_ in inter + [out_state, cell_state]:
+        if s_ in net.open:
+            net.open.remove(s_)
+    y = net.act([h, w, n_cell], "int8", q=(1 / 128, 0))
+    net.op("UNIDIRECTIONAL_SEQUENCE_LSTM", ins, [y], ("UnidirectionalSequenceLSTMOptions", dict(FusedActivationFunction=ACT["TANH"], CellClip=10.0, ProjClip=0.0, TimeMajor=time_major, AsymmetricQuantizeInputs=False)))
+    net.ops[-1]["intermediates"] = inter
+    return True
+
+
+inst("lstm", "r")(lambda n: _lstm(n, False))
+inst("lstm_tm", "r")(lambda n: _lstm(n, True))
+inst("lstm_b", "B")(lambda n: _lstm(n, False, allow_batch=True))
+
+SIGMA_R = [n for n, (_, tags) in INSTANCES.items() if "r" in tags]
+
 SIGMA_Q = [
     "conv1x1", "conv3x3", "conv3x3s2", "conv3x3v_relu6", "conv3x3d2", "dw3x3", "dw3x3s2", "fc", "maxpool2x2",
     "avgpool2x2", "avgpool3x3same", "add_res", "add_const", "add_scalar", "add_bcast_h", "sub_const", "mul_const",
